@@ -135,6 +135,8 @@ where
         .rev()
         .zip(paren_counter)
         .enumerate()
+        // the operator sits directly in front of the parenthesis that encloses the comma
+        .take_while(|(_, (_, paren_cnt))| *paren_cnt <= 1)
         .find(|(_, (pt, paren_cnt))| {
             matches!(pt, 
             ParsedToken::Op(_) if *paren_cnt == 1)
